@@ -419,8 +419,13 @@ func (w *rbWorld) runScenario(b Beh, sc rbScenario, seed int64, variants int, tr
 			continue
 		}
 		if err != nil {
+			// the correct messages that lead to the scenario's state were refused: the accessory does not complete a
+			// correct handshake any more (whatever an earlier scenario left behind); the scenario itself cannot be run
 			c.Close()
-			return fmt.Errorf("case %d: correct prefix %s failed: %v", b.ID, sc.St, err)
+			o["prefixOK"], o["prefixErr"] = false, err.Error()
+			o["answered"], o["newOK"], o["closedAfter"] = true, true, true
+			lines = append(lines, o)
+			continue
 		}
 		// the malformed message
 		var m *ref.Msg
